@@ -169,6 +169,7 @@ def make_sessions(ctx, n, heat):
     import scipy.cluster.hierarchy as hc
     import pyrepseq as prs
     out, side = [], []
+    nheat = 1                                   # (the first paired heat map uses positional labels)
     amap = {c: i for i, c in enumerate(nc.AA)}
     for sid in range(1, n + 1):
         typ = sid % 3
@@ -217,13 +218,16 @@ def make_sessions(ctx, n, heat):
                 sa = ["".join(ctx.rng.choice("AC") for _ in range(ctx.rng.randint(2, 7))) for _ in range(m)]
                 sb = ["".join(ctx.rng.choice("AC") for _ in range(ctx.rng.randint(2, 7))) for _ in range(m)]
             single = sid % 6 == 2
-            df = pd.DataFrame(dict(cdr3a=sa, cdr3b=sb, donor=[f"d{i % 2}" for i in range(m)]), index=[f"cell{i}" for i in range(m)][::-1])
+            # column labels: ordinary names, positional labels of a frame built without names (0 and 1), the empty string
+            ca, cb = ("cdr3a", "cdr3b") if single else [("cdr3a", "cdr3b"), (0, 1), ("", "beta"), ("alpha", 0)][nheat % 4]
+            nheat += 1
+            df = pd.DataFrame({ca: sa, cb: sb, "donor": [f"d{i % 2}" for i in range(m)]}, index=[f"cell{i}" for i in range(m)][::-1])
             vec = [nc._lev(sa[i], sa[j]) + (0 if single else nc._lev(sb[i], sb[j])) for i in range(m) for j in range(i + 1, m)]
             ev = dict(op="Heat", seqsA=[nc.enc(x, amap) for x in sa], seqsB=[nc.enc(x, amap) for x in (sa if single else sb)], single=single,
                       order=[], data2d=[], vec=vec, raised=False)
             try:
                 np.random.seed(sid)
-                kw = dict(alpha_column="cdr3a", beta_column=None) if single else dict(alpha_column="cdr3a", beta_column="cdr3b")
+                kw = dict(alpha_column=ca, beta_column=None) if single else dict(alpha_column=ca, beta_column=cb)
                 if sid % 4 == 0:
                     kw.update(meta_columns=["donor"])
                 if sid % 5 == 0:
